@@ -74,6 +74,7 @@ type EventDecl struct {
 	Callee string // full name pattern of the callee (function or interface method)
 	When   *CExpr // optional predicate over a0..an (call arguments; a0 = receiver for methods) and, for ret events, r0..rn
 	Ret    bool   // emitted after the call returned (results visible)
+	Spawn  bool   // "go": the start of a goroutine running Callee (not a call: the spawner does not wait for it)
 	Chan   string // "send" / "recv": a channel operation on the channel held in struct field Callee (pkg.Type.field)
 }
 
@@ -273,7 +274,7 @@ func (db *ContractDB) LoadFile(path, pkgPath string, assumed bool) error {
 				curSpec = sf
 			case "event":
 				// event Name = call <callee> [when expr]
-				m := regexp.MustCompile(`^(\w+)\s*=\s*(call|ret|send|recv)\s+(\S+)(?:\s+when\s+(.*))?$`).FindStringSubmatch(rest)
+				m := regexp.MustCompile(`^(\w+)\s*=\s*(call|ret|go|send|recv)\s+(\S+)(?:\s+when\s+(.*))?$`).FindStringSubmatch(rest)
 				if m == nil {
 					return errf(l, "event <Name> = call|ret <callee> [when <expr>]  or  send|recv <Type.field>")
 				}
@@ -283,6 +284,9 @@ func (db *ContractDB) LoadFile(path, pkgPath string, assumed bool) error {
 				ev := &EventDecl{Pkg: pkgPath, Name: m[1], Callee: m[3], Ret: m[2] == "ret"}
 				if m[2] == "send" || m[2] == "recv" {
 					ev.Chan = m[2]
+				}
+				if m[2] == "go" {
+					ev.Spawn = true
 				}
 				m[3] = m[4]
 				if m[3] != "" {
